@@ -157,7 +157,7 @@ def setup(ctx):
     install(ctx, laue)
 
 
-KINDS = ["oblique", "near_orth", "orthogonal", "special", "ties", "unimodular", "special", "unimodular", "oblique"]
+KINDS = ["oblique", "near_orth", "orthogonal", "special", "ties", "unimodular", "special", "unimodular", "oblique", "small"]
 
 
 def reducedish(rng):
@@ -180,6 +180,16 @@ def workload(ctx):
             c = [float(x) for x in np.concatenate([np.array(c[:3]) / max(1.0, min(c[:3]) / 3.0), c[3:]])]
         elif kind == "near_orth":
             c, _ = gen.cell(rng, "near_orth")
+        elif kind == "small":
+            # sub-Angstrom axes (reciprocal-space or reduced-unit usage): absolute tolerances inside the search matter here
+            c, _ = gen.cell(rng, ["generic", "near_orth", "one90"][int(rng.integers(3))])
+            ratio = max(c[:3]) / min(c[:3])
+            if ratio > 4:
+                c = [float(x) for x in rng.uniform(1.0, 3.0, 3)] + c[3:]
+                if oracle.gram_det_angular(c) < 0.05:
+                    continue
+            f = float(rng.uniform(0.15, 2.0)) / max(c[:3])
+            c = [c[0] * f, c[1] * f, c[2] * f] + c[3:]
         elif kind == "orthogonal":
             a, b, cc = (float(x) for x in rng.uniform(2, 12, 3))
             c = [[a, b, cc], [a, a, cc], [a, a, a], [a, b, b]][int(rng.integers(4))] + [90.0, 90.0, 90.0]
